@@ -79,7 +79,34 @@ void profile_storm(RunCtx& ctx)
         std::string what;
         int kind = rng.below(100);
         // --- choose input and entry point ---
-        if (kind < 50) {
+        if (rng.chance(0.04)) {
+            // a DOCTYPE with nested internal entities referenced from a text block ("billion laughs"): harmless as long
+            // as entity references are not substituted; exponential in the nesting depth when they are
+            int depth = rng.range(3, 14), fan = rng.range(2, 12);
+            std::string dt = "<!DOCTYPE nta [\n<!ENTITY e0 \"int zz;\">\n";
+            for (int d = 1; d <= depth; ++d) {
+                dt += "<!ENTITY e" + std::to_string(d) + " \"";
+                for (int f = 0; f < fan; ++f)
+                    dt += "&e" + std::to_string(d - 1) + ";";
+                dt += "\">\n";
+            }
+            dt += "]>\n";
+            c.bytes = base_xml;
+            size_t dpos = c.bytes.find("<!DOCTYPE");
+            if (dpos != std::string::npos) {
+                size_t dend = c.bytes.find('>', dpos);
+                c.bytes.erase(dpos, dend == std::string::npos ? 0 : dend + 1 - dpos);
+            }
+            size_t root = c.bytes.find("<nta");
+            if (root != std::string::npos)
+                c.bytes.insert(root, dt);
+            size_t decl = c.bytes.find("<declaration>");
+            if (decl != std::string::npos)
+                c.bytes.insert(decl + 13, "&e" + std::to_string(depth) + ";");
+            c.entry = rng.below(3);
+            what = "entity-bomb depth=" + std::to_string(depth) + " fan=" + std::to_string(fan);
+            ctx.count("content-fault:entity-bomb");
+        } else if (kind < 50) {
             bool use_corpus = !corpus().empty() && rng.chance(0.2);
             c.bytes = use_corpus ? corpus()[rng.below((uint32_t)corpus().size())].second : base_xml;
             what = use_corpus ? "corpus-xml" : "generated-xml";
